@@ -373,3 +373,25 @@ REG.contract(IF + "current_datetime", params=dict(self=Ref("Interface")), ret=Re
              ensures=[C("C05.current_datetime_is_start_plus_period_times_iteration",
                         lambda old, new, ret: new.field_of(ret.ref, "datetime", "theta")
                         == old.self._simulator.start.theta + 60 * old.self._simulator.period * z3.ToReal(old.self._simulator._iteration), props=("C05",))])
+
+
+# ---------------------------------------------------------------------------- the remaining observation accessors (C05)
+REG.contract(
+    IF + "allowable_pilot_signals", params=dict(self=Ref("Interface"), station_id=Id), ret=Tup(Bool, Seq(Real)),
+    requires=[C("network", lambda s: And(net_wf(s, s.self._simulator.network), net_shapes(s, s.self._simulator.network),
+                                         net_info_wf(s, s.self._simulator.network)))],
+    raises=[RaiseSpec("KeyError", lambda s: Not(s.self._simulator.network._EVSEs.has(s.station_id)), iff=True, unchanged=False)],
+    modifies=[("InfrastructureInfo." + f, "FRESH") for f in II_FIELDS] + ["alloc"],
+    ensures=[C("C05.allowable_pilot_signals", lambda old, new, ret: [
+        ("continuity_flag_of_that_station", ret[0] == ty.sel(old.self._simulator.network.is_continuous.v.arrs[0], maplib_pos(old.self._simulator.network, old.station_id))),
+        ("allowable_list_of_that_station", And(
+            ret[1].len == z3.Select(old.self._simulator.network.allowable_rates.v.arrs[1], maplib_pos(old.self._simulator.network, old.station_id)),
+            FA([z3.Int("m!aps")], z3.Implies(z3.And(z3.Int("m!aps") >= 0, z3.Int("m!aps") < ret[1].len),
+                                             ty.sel(ret[1].v.arrs[0], z3.Int("m!aps")) == z3.Select(z3.Select(old.self._simulator.network.allowable_rates.v.arrs[0],
+                                                                                                            maplib_pos(old.self._simulator.network, old.station_id)), z3.Int("m!aps"))))))])])
+REG.contract(IF + "max_recompute_time", params=dict(self=Ref("Interface")), ret=Opt(Int), modifies=[],
+             extra=dict(returns=lambda old: old.self._simulator.max_recompute, returns_props=("C05",)))
+REG.contract(IF + "_violation_tolerance", params=dict(self=Ref("Interface")), ret=Real, modifies=[],
+             extra=dict(returns=lambda old: old.self._simulator.network.violation_tolerance, returns_props=("C05", "C06")))
+REG.contract(IF + "_relative_tolerance", params=dict(self=Ref("Interface")), ret=Real, modifies=[],
+             extra=dict(returns=lambda old: old.self._simulator.network.relative_tolerance, returns_props=("C05", "C06")))
